@@ -852,6 +852,51 @@ def case_split(v, limit=16):
     return out
 
 
+def split_conditionals(v, limit=8, keep=None):
+    """like case_split, with the condition each variant stands under:
+    -> [(((abstract test, polarity), ...), value)]; conditional expressions
+    whose test `keep(test value)` is true stay as they are"""
+    tests = []
+
+    def collect(x):
+        if isinstance(x, tuple) and not isinstance(x, CondText):
+            if len(x) == 4 and x[0] == "ifexp" and isinstance(x[1], CondText) \
+                    and x[1].val is not None and not (keep and keep(x[1].val)):
+                if str(x[1]) not in [str(t) for t in tests]:
+                    tests.append(x[1])
+            for y in x:
+                collect(y)
+    collect(v)
+    if not tests or 2 ** len(tests) > limit:
+        return [((), v)]
+    import itertools
+    out = []
+    for bits in itertools.product((True, False), repeat=len(tests)):
+        choice = {str(t): b for t, b in zip(tests, bits)}
+
+        def subst(x):
+            if isinstance(x, tuple) and not isinstance(x, CondText):
+                if len(x) == 4 and x[0] == "ifexp" and str(x[1]) in choice:
+                    return subst(x[2] if choice[str(x[1])] else x[3])
+                r = tuple(subst(y) for y in x)
+                if len(r) == 3 and r[0] == "lit" and isinstance(r[2], tuple):
+                    # (*(<a>, <b>), c)  is  (a, b, c)
+                    flat = []
+                    for it in r[2]:
+                        if isinstance(it, tuple) and len(it) == 2 and \
+                                it[0] == "star" and isinstance(it[1], tuple) \
+                                and len(it[1]) == 3 and it[1][0] == "lit" and \
+                                it[1][1] in ("tuple", "list"):
+                            flat.extend(it[1][2])
+                        else:
+                            flat.append(it)
+                    r = (r[0], r[1], tuple(flat))
+                return r
+            return x
+        out.append((tuple((t.val, b) for t, b in zip(tests, bits)), subst(v)))
+    return out
+
+
 def base_field(v, depth=0):
     """The declared field (or pseudo attribute) a value is derived from by
     element/index/value projections *without* passing through rec; None if
